@@ -85,8 +85,16 @@ def monC04 (_g : Ghost) (o : Obs) : List String :=
       if n ≥ 1 && o.pre.store.length ≤ n && o.post.store.length > n then
         [s!"{o.post.store.length} entries held with limit {n}"] else []
     | none => []
-  let c := match o.op with
-    | .insert k _ =>
+  -- a memory-aware store WITHOUT memory pressure (no max_memory, or the survivors plus the new value fit) is exactly a
+  -- plain store: one victim on overflow, none otherwise
+  let plainStore : Option String := match o.op, o.cfg.maxMem with
+    | .insert k _, _ => some k
+    | .insertMem k _, none => some k
+    | .insertMem k v, some M =>
+      if totalMem Val.size (o.pre.store.filter (fun p => p.1 ≠ k)) + v.size ≤ M then some k else none
+    | _, _ => none
+  let c := match plainStore, o.op with
+    | some k, _ =>
       let before := if hasKey k o.pre.store then keys o.pre.store else keys o.pre.store ++ [k]
       let removed := diffKeys before (keys o.post.store)
       let extra := diffKeys (keys o.post.store) before
@@ -97,14 +105,14 @@ def monC04 (_g : Ghost) (o : Obs) : List String :=
       (if removed.length = expect then [] else
         [s!"store of {k} removed {removed} (overflow={overflow})"]) ++
       (if extra.isEmpty then [] else [s!"keys appeared from nowhere: {extra}"])
-    | .get k =>
+    | none, .get k =>
       let removed := diffKeys (keys o.pre.store) (keys o.post.store)
       let expiredK := match lookup k o.pre.store with
         | some e => isExpiredObs o e
         | none => false
       if removed = (if expiredK then [k] else []) && (diffKeys (keys o.post.store) (keys o.pre.store)).isEmpty then []
       else [s!"lookup of {k} changed the key set: removed {removed}"]
-    | _ => []
+    | _, _ => []
   a ++ b ++ c
 
 /-! C05: total size ≤ max_memory after a memory-aware store; an oversize value displaces nothing
@@ -311,8 +319,19 @@ def monC16 (_g : Ghost) (o : Obs) : List String :=
   | .panic m => [s!"operation panicked: {m}"]
   | _ => []
 
+/-- C05, last clause ("entries are evicted IN POLICY ORDER only until the total fits"): on a memory-aware store
+    under max_memory, whatever was evicted must be what the policy ranks first — FIFO / LRU by the ghost stamps (C07's
+    predicate), LFU / ARC / TLRU by the documented score (C08's predicate, single-victim stores). -/
+def monC05order (g : Ghost) (o : Obs) : List String :=
+  match o.op, o.cfg.maxMem with
+  | .insertMem _ _, some _ =>
+    (monC07 g o ++ ((monC08 g o).filter (fun m => (m.splitOn "evicted").length > 1))).map (fun m => "eviction under max_memory not in policy order: " ++ m)
+  | _, _ => []
+
+def monC05all (g : Ghost) (o : Obs) : List String := monC05 g o ++ monC05order g o
+
 def allMonitors : List (String × (Ghost → Obs → List String)) :=
-  [("C01", monC01), ("C04", monC04), ("C05", monC05), ("C06", monC06), ("C07", monC07),
+  [("C01", monC01), ("C04", monC04), ("C05", monC05all), ("C06", monC06), ("C07", monC07),
    ("C08", monC08), ("C15", monC15), ("C16", monC16)]
 
 /-- ghost update after an observation -/
